@@ -22,7 +22,7 @@ STRUCTURAL = [_f2]
 
 VALIDATION = [validate_bs4]
 
-FUNCTIONS = FUNCTIONS + [q for q in CACHE if q not in FUNCTIONS]
+FUNCTIONS = FUNCTIONS + [q for q in CACHE + LANG if q not in FUNCTIONS]
 SHARDS = dict(SHARDS)
 
 FUNCTIONS = FUNCTIONS + [q for q in (M + '__init__', M + 'match_nth', M + 'match_subselectors', M + 'match_past_relations', M + 'match_future_child',
